@@ -2,7 +2,7 @@
 import ast
 
 from ..model import AnalysisError, unparse, walk_local
-from ..paths import Evaluator, is_c, show, C, S, NONE, subterms
+from ..paths import substitute, Evaluator, is_c, show, C, S, NONE, subterms
 from .common import trace_tail
 
 PROPERTY = 'C16'
@@ -313,6 +313,32 @@ def _type_with_comps(t, fi, st, level):
                 et = ('set', et[1])
             if et[0] in ('set', 'scalar'):
                 return ('set', et[1])
+            return ('other',)
+        if x[0] == 'call' and x[2] and x[2][0][0] == 's' and '@F' in x[2][0][1] and x[1] in (
+                'numpy.hstack', 'numpy.concatenate', 'numpy.array', 'numpy.atleast_1d'):
+            # the loop form of the same thing:  parts = []; for j in <set>: parts.append(<map>(j)); hstack(parts)
+            name, tag = x[2][0][1].split('@')
+            for ls in getattr(st, 'loops', []):
+                if ls.kind != 'for' or 'F%d' % ls.node.lineno != tag.replace('post', ''):
+                    continue
+                itt = ty(ls.iter_term)
+                var = ls.var
+                if not (var[0] == 's' and itt[0] in ('set', 'where')):
+                    continue
+                lv = None
+                for kind, b in ls.body_states:
+                    v = b.env.get(name)
+                    if v is None or v[0] != 'mut' or v[1] not in ('append', 'extend') or len(v[3]) != 1:
+                        return ('other',)
+                    elt = substitute(v[3][0], {var: ('s', '__bv_%s_%s' % (itt[1], 'loopvar'))})
+                    et = typeof(elt, fi, w, level, None)
+                    if et[0] == 'where':
+                        et = ('set', et[1])
+                    if et[0] not in ('set', 'scalar') or (lv is not None and lv != et[1]):
+                        return ('other',)
+                    lv = et[1]
+                if lv is not None:
+                    return ('set', lv)
             return ('other',)
         return typeof_b(x)
 
